@@ -1,7 +1,7 @@
 (* C09 -- statements over arbitrary operation histories from the empty heap, obtained from the
    any-state theorems and the reachability invariant (Proofs/C09Wf.v). *)
 From Coq Require Import List Bool Arith Lia.
-From DV Require Import Model.TransformState Proofs.C09Fresh Proofs.C09Replace Proofs.C09Regrid Proofs.C09Wf Proofs.C09Seq.
+From DV Require Import Model.TransformState Proofs.C09Fresh Proofs.C09Replace Proofs.C09Regrid Proofs.C09Wf Proofs.C09Seq Proofs.C09SeqDirect.
 Import ListNotations.
 
 Section History.
@@ -59,6 +59,55 @@ Theorem regrid_history (geq_sound : forall a b, geq a b = true -> a = b)
 Proof.
   intros s Hw Hg Hd Hp H.
   eapply (dense_grid_set_preserves_world p0 regrid fits geq spline_ok ffd_sub cf Hcf geq_sound W world); eauto.
+  eapply history_slots_wf; eauto.
+Qed.
+
+(* direct access (no __call__) to a composite right after clear_buffers() on it, after any history *)
+Theorem composite_direct_history (h : list (op P G C)) (o : nat) ob (l : list (tag P G)) (gout : option G) :
+  let s := run (empty_state P G C) h in
+  get_obj P G C s o = Some ob -> o_kind P G C ob = KSeq ->
+  Forall (direct_member s) (o_members P G C ob) ->
+  let s1 := fst (step s (Clear P G C o)) in
+  snd (step s1 (Disp P G C o)) = Out P G l gout ->
+  Forall2 (fun t m => held s1 m = Some t) l (o_members P G C ob).
+Proof.
+  intros s Hg Hk Hdm s1 H.
+  assert (Es1 : s1 = clear_buffers P G C cf s o).
+  { subst s1. cbn. fold (get_obj P G C s o). rewrite Hg. reflexivity. }
+  cbn in H. destruct (TransformState.get_obj P G C s1 o); [|discriminate].
+  unfold fin in H.
+  destruct (forward P G C p0 callP fits spline_ok cf s1 o) as [l' s'|] eqn:E; cbn in H; try discriminate.
+  injection H as -> _. rewrite Es1 in *.
+  eapply (composite_direct_after_clear p0 emptyP zeroP fillP regrid callP fits geq same_dom spline_ok ffd_sub cf Hcf s o ob l s'); eauto.
+  apply history_wf.
+Qed.
+
+(* a linear transform holding a tensor or Parameter is always read fresh (no buffer involved) *)
+Theorem linear_tensor_direct (s : state P G C) o ob r ip l s' :
+  get_obj P G C s o = Some ob -> o_kind P G C ob = KLin -> get_params P G C s ob = Some (VTen r ip) ->
+  forward P G C p0 callP fits spline_ok cf s o = Ok l s' ->
+  exists t, l = [t] /\ held s o = Some t.
+Proof.
+  intros Hg Hk Hp H. unfold forward, with_obj in H. fold (get_obj P G C s o) in H. rewrite Hg, Hk in H.
+  unfold bind, tensor1, with_obj in H. fold (get_obj P G C s o) in H. rewrite Hg, Hk in H.
+  unfold bind, data_ref in H. rewrite Hp in H. injection H as <- _.
+  eexists. split; [reflexivity|].
+  unfold TransformState.held. fold (get_obj P G C s o). rewrite Hg, Hp. unfold sign_of. rewrite Hk. reflexivity.
+Qed.
+
+(* B-spline subdivision after any history *)
+Theorem spline_regrid_history (W : Type) (world : P -> G -> W) (h : list (op P G C)) o g s1 ob r ip :
+  let s := run (empty_state P G C) h in
+  (forall k p a b, world (regrid k p a b) b = world p a) ->
+  get_obj P G C s o = Some ob -> is_spline (o_kind P G C ob) = true ->
+  get_params P G C s ob = Some (VTen r ip) ->
+  ffd_sub (o_grid P G C ob) g = Some true ->
+  grid_set P G C p0 regrid fits geq spline_ok ffd_sub cf s o g = Ok tt s1 ->
+  exists p', holds p0 s1 o p' g /\ world p' g = world (tval P G C p0 s r) (o_grid P G C ob).
+Proof.
+  intros s Hw Hg Hsp Hp Hsub H.
+  exists (regrid (o_kind P G C ob) (tval P G C p0 s r) (o_grid P G C ob) g). split; [|apply Hw].
+  eapply (spline_grid_set_reexpresses p0 regrid fits geq spline_ok ffd_sub cf Hcf); eauto.
   eapply history_slots_wf; eauto.
 Qed.
 
